@@ -245,6 +245,12 @@ theorem postFrames_cons_other (k : K) (r : List K) (h : ∀ op, k ≠ .user op .
 @[simp] theorem armTimer_ops (w : World) (o : Obj) (op : Nat) (r : Bool) : (armTimer w o op r).ops = w.ops := by
   unfold armTimer; split <;> rfl
 
+@[simp] theorem unsetPending_posts (w : World) (o : Obj) : (unsetPending w o).posts = w.posts := rfl
+@[simp] theorem unsetPending_stack (w : World) (o : Obj) : (unsetPending w o).stack = w.stack := rfl
+@[simp] theorem unsetPending_disp (w : World) (o : Obj) : (unsetPending w o).dispatched = w.dispatched := rfl
+@[simp] theorem unsetPending_ops (w : World) (o : Obj) : (unsetPending w o).ops = w.ops := rfl
+@[simp] theorem unsetPending_objs (w : World) (o : Obj) : (unsetPending w o).objs = w.objs := rfl
+
 /-- Finish an accounting step: `w1` is balanced with `w`, and the successor takes `w1`'s objects with an adjusted
 pending count, post queue and stack. -/
 theorem acct_finish {w w1 w' : World} (hI : AcctInv w) (hb : Bal w w1) (dp : Int)
